@@ -15,6 +15,7 @@ import (
 	"sync"
 	"time"
 
+	"github.com/gorilla/websocket"
 	lime "github.com/takenet/lime-go"
 	"verif/gosim/rt"
 )
@@ -30,6 +31,8 @@ type PipeListener struct {
 	Servers    []*rt.Conn // server ends, in dial order
 	Transports []lime.Transport
 	Clients    []*rt.Conn
+	Base       []int64 // bytes the server end had read before it was queued (WebSocket: the opening handshake)
+	WSServers  []*websocket.Conn // server ends of the WebSocket connections, in DialWS order
 }
 
 func NewPipeListener(cfg *lime.TCPConfig, capacity, backlog int) *PipeListener {
@@ -61,6 +64,7 @@ func (l *PipeListener) Dial() *rt.Conn {
 	c.Name, s.Name = "client", "server"
 	l.Servers = append(l.Servers, s)
 	l.Clients = append(l.Clients, c)
+	l.Base = append(l.Base, 0)
 	t := lime.NewTCPTransportFromConn(s, l.Cfg, true)
 	l.Transports = append(l.Transports, t)
 	l.ch <- t
@@ -74,6 +78,8 @@ func (l *PipeListener) DialWS() (lime.Transport, *rt.Conn) {
 	cws, sws, c, s := WSConns(l.Cap)
 	l.Servers = append(l.Servers, s)
 	l.Clients = append(l.Clients, c)
+	l.Base = append(l.Base, s.BytesRead)
+	l.WSServers = append(l.WSServers, sws)
 	t := lime.NewWebsocketTransportFromConn(sws, false)
 	l.Transports = append(l.Transports, t)
 	l.ch <- t
